@@ -851,6 +851,22 @@ void container_entry()
                   return -1;
                 },
                 [&]() -> i128 { return static_cast<i128>(sd(g2)); });
+            // the same wrapper behind a variate: what the variate yields is still a reference to an element of the
+            // container (identity), not to a copy
+            {
+              typename E::f g3{fseed<E>(seed)};
+              fr::variate<typename E::f, W> var{fcppt::make_ref(g3), w};
+              for (unsigned k = 0; k < 8 && non_element < 0; ++k)
+              {
+                auto &r = var();
+                bool found = false;
+                for (std::size_t j = 0; j < n; ++j)
+                  found = found || &c[j] == &r;
+                if (!found)
+                  vf::violation(key + "/variate/non-element", "mismatch", "a reference yielded by variate<generator, uniform_container> does not refer to an element of the container");
+              }
+              VF_COUNT("container/drawn-through-variate");
+            }
             VF_COUNT("container/non-empty-drawn");
             vf::count("container/size-" + std::to_string(n));
             vf::note_distinct(vf::hash_mix(vf::hash_mix(vf::hash_str(key), n * 64 + ia * 8 + ib), vf::hash_mix(seed, v.h)));
